@@ -113,8 +113,20 @@ def howOverridden (owner field : String) (ctx : Ctx) : Bool :=
 
 inductive Verdict
   | ok
+  /-- the table is WEAKER than the heap (see `staleButSafe`): not a failure of the property -/
+  | stale (why : String)
   | bad (why : String)
   deriving DecidableEq, Repr
+
+/-- The table claims LESS separation than the heap has: it says the copy's field is the original's
+object / value (`assigned`) or the zero value (`absent`), the heap shows another object with equal
+content. The property holds for this field (separate and initially identical); the table is stale —
+e.g. the extractor did not see through a rewritten `Clone` body. Whether the stale table still
+proves separation is the bridge's business (`repo_rows_safe` / `repo_clone_separates` fail when a
+row of an in-place-mutated field says `assigned`). The opposite direction — the table says
+`cloned` / `rebuilt`, the heap shows the same object — stays a failure (`rowTruth`). -/
+def staleButSafe (how : How) (rel : Rel) : Bool :=
+  (how == .assigned || how == .absent) && rel == .freshEq
 
 def showHow : How → String
   | .assigned => "assigned" | .cloned => "cloned" | .rebuilt => "rebuilt" | .absent => "absent"
@@ -137,10 +149,43 @@ def judge (owner field : String) (kind : Kind) (row : Option (Kind × How × Boo
       else if !carriedOK hasSetter ctx rel then .bad "setting-dropped-by-Clone"
       else if howOverridden owner field ctx then .ok
       else if rowTruth how ctx rel then .ok
+      else if staleButSafe how rel then .stale ("table-says-" ++ showHow how)
       else .bad ("table-says-" ++ showHow how)
 
+/-- the lane's answer: a stale-but-safe row is `ok` for the property (the harness counts it in the
+bucket `table-weaker-than-heap`) -/
 def Verdict.show : Verdict → String
   | .ok => "ok"
+  | .stale _ => "ok"
   | .bad w => "bad:" ++ w
+
+/-- a stale verdict is only ever given to a field whose object is NOT the original's -/
+theorem stale_not_shared (owner field : String) (kind : Kind) (row : Option (Kind × How × Bool)) (ctx : Ctx)
+    (rel : Rel) (w : String) (h : judge owner field kind row ctx rel = .stale w) : rel = .freshEq := by
+  unfold judge at h
+  split at h
+  · cases h
+  · split at h
+    · cases h
+    · rename_i rk how hasSetter
+      split at h
+      · cases h
+      · split at h
+        · cases h
+        · split at h
+          · cases h
+          · split at h
+            · cases h
+            · split at h
+              · rename_i hs
+                simp only [staleButSafe, Bool.and_eq_true, beq_iff_eq] at hs
+                exact hs.2
+              · cases h
+
+example : judge "TLSConfig" "Certificates" .slice (some (.slice, .assigned, true)) ⟨false, true, false⟩ .freshEq =
+    .stale "table-says-assigned" := by decide
+example : judge "TLSConfig" "Certificates" .slice (some (.slice, .cloned, true)) ⟨false, true, false⟩ .same =
+    .bad "object-shared-with-the-original-but-not-SharedByDesign" := by decide
+example : judge "Dumper" "ch" .pointer (some (.pointer, .rebuilt, false)) ⟨false, true, false⟩ .same ≠ .ok := by decide
 
 end Req.ShareJudge
